@@ -232,11 +232,26 @@ func runC07Syn(t *testing.T, c synCase) (violation string) {
 			}
 		case "syn":
 			peer.send(&gbn.PacketSYN{N: uint8(c.N)})
+		case "served":
+			// an honest receiver: every DATA packet of the server is
+			// acknowledged; afterwards nothing may be outstanding
+			for i := 0; i < 40; i++ {
+				m := peer.recv(300 * time.Millisecond)
+				if m == nil {
+					break
+				}
+				if d, ok := m.(*gbn.PacketData); ok {
+					peer.send(&gbn.PacketACK{Seq: d.Seq})
+				}
+			}
 		}
 		time.Sleep(time.Second)
 		synctest.Wait()
 		if v := windowOK(conn.VerifWindow()); v != "" && violation == "" {
 			violation = fmt.Sprintf("after the exchange (SYN N=%d): %s", c.N, v)
+		}
+		if w := conn.VerifWindow(); c.After == "served" && violation == "" && (w.Size != 0 || w.Base != w.Top) {
+			violation = fmt.Sprintf("after the exchange (SYN N=%d) every DATA packet of the server was acknowledged, but its window bookkeeping says %+v", c.N, w)
 		}
 		_ = conn.Close()
 		cancel()
@@ -265,7 +280,7 @@ func TestC07SynValues(t *testing.T) {
 	nviol := 0
 	for n := 0; n < 256; n++ {
 		for _, seq := range []string{"", "second", "first", "after_timeout"} {
-			for _, after := range []string{"data", "acks", "syn"} {
+			for _, after := range []string{"data", "acks", "syn", "served"} {
 				if seq != "" && after != "data" {
 					continue
 				}
